@@ -285,21 +285,52 @@ def selection(ctx):
     F = ctx.F
     sk = F.fn('core::MasterPublicKey::select_subkeys')
     fam = F.family(sk.key)
-    # the flag local in select_subkeys
+    # the flag is component .0 of the tuple returned in Ok(..)
     flag = []
     for b in sorted(sk.live_blocks()):
         for st in sk.stmts(b):
             rv = st['rv']
-            if rv['k'] == 'ref' and rv['mut'] and sk.local_ty(rv['pl']['l']) == 'bool' and not rv['pl']['p'] and rv['pl']['l'] not in flag:
-                flag.append(rv['pl']['l'])
-    ctx.check(len(flag) == 1, sk.key, 'flag local', 'select_subkeys has no `is_hybridized` accumulator', '', sk.where())
-    if len(flag) == 1:
-        inits = [d for d in sk.defs().get(flag[0], []) if d.kind == 'assign' and d.via is None and not d.lhs['p']]
-        vals = [d.rv['a']['c'].get('v') for d in inits if d.rv['k'] == 'use' and 'c' in d.rv['a']]
-        ctx.check(vals == [1], sk.key, 'flag starts true', 'the all-hybridized flag is initialised to %s, it must start true' % vals,
-                  'true', sk.where())
-    # writes in the closure: only `false`, only under !is_hybridized()
+            if rv['k'] == 'agg' and rv.get('tuple') and len(rv['ops']) == 2 and sk.local_ty(st['lhs']['l']).startswith('(bool,') \
+                    and is_place(rv['ops'][0]):
+                cur, _d = lib.resolve_copy(sk, op_local(rv['ops'][0]))
+                if cur not in flag:
+                    flag.append(cur)
+    ctx.check(len(flag) == 1, sk.key, 'flag local', 'select_subkeys does not return a single all-hybridized flag', '', sk.where())
     n = 0
+    if len(flag) == 1:
+        L = flag[0]
+        direct = [d for d in sk.defs().get(L, []) if d.kind == 'assign' and d.via is None and not d.lhs['p']]
+        consts = [d for d in direct if d.rv['k'] == 'use' and 'c' in d.rv['a']]
+        inits = [d for d in consts if d.rv['a']['c'].get('v') == 1]
+        ctx.check(len(inits) == 1 and all(sk.block_dominates(inits[0].b, d.b) for d in direct), sk.key, 'flag starts true',
+                  'the all-hybridized flag is not initialised to true before anything else', 'true', sk.where())
+        for d in direct:
+            if d in inits:
+                continue
+            n += 1
+            rv = d.rv
+            ok = False
+            why = 'assigned %s' % rv['k']
+            if rv['k'] == 'use' and 'c' in rv['a'] and rv['a']['c'].get('v') == 0:
+                # cleared: must be under !is_hybridized()
+                for c in sk.calls(r'RightPublicKey::is_hybridized$'):
+                    for (sb, neg) in switch_on(sk, c.dest['l']):
+                        te, fe = bool_edges(sk, sb, neg)
+                        if fe and sk.edge_dominates(fe, d.b):
+                            ok = True
+                why = 'cleared without a dominating !is_hybridized() test'
+            elif rv['k'] == 'bin' and rv['op'] == 'BitAnd':
+                # flag &= subkey.is_hybridized()
+                sides = [rv['a'], rv['b']]
+                has_self = any(is_place(o) and lib.resolve_copy(sk, op_local(o))[0] == L for o in sides)
+                has_h = any(is_place(o) and backward_slice(sk, [o], follow_mutarg=False).has_call(r'RightPublicKey::is_hybridized$') for o in sides)
+                ok = has_self and has_h
+                why = 'and-ed with something other than is_hybridized() of the selected key'
+            ctx.check(ok, sk.key, 'flag only cleared by a non-hybridized key',
+                      'the all-hybridized flag is written at line %d in a way that is not "clear it when a selected key is not '
+                      'hybridized" (%s): an encapsulation must be hybridized iff every selected key is' % (sk.stmts(d.b)[d.i]['ln'], why),
+                      'cleared under !is_hybridized() / and-ed with is_hybridized()', sk.where(sk.stmts(d.b)[d.i]['ln']))
+    # writes through a captured `&mut flag` in closures: only `false`, only under !is_hybridized()
     for cb in fam:
         if cb is sk:
             continue
